@@ -18,17 +18,18 @@ import (
 )
 
 var (
-	fProp    = flag.String("sim.prop", "", "property id")
-	fFrom    = flag.Uint64("sim.from", 1, "first seed")
-	fCount   = flag.Int("sim.count", 1, "number of seeds")
-	fTier    = flag.String("sim.tier", "quick", "quick|thorough")
-	fOut     = flag.String("sim.out", "", "jsonl result file (append)")
-	fReplay  = flag.String("sim.replay", "", "replay file: JSON {seed,tape}")
-	fTrace   = flag.Bool("sim.trace", false, "include the schedule trace in every result")
-	fSamples = flag.Int("sim.samples", 3, "number of results that keep their sample")
-	fFinding = flag.String("sim.finding", "", "known-finding configuration to build")
-	fFeat    = flag.String("sim.features", "", "feature overrides")
-	fBudget  = flag.Duration("sim.budget", 0, "stop starting new runs after this much wall time")
+	fProp     = flag.String("sim.prop", "", "property id")
+	fFrom     = flag.Uint64("sim.from", 1, "first seed")
+	fCount    = flag.Int("sim.count", 1, "number of seeds")
+	fTier     = flag.String("sim.tier", "quick", "quick|thorough")
+	fOut      = flag.String("sim.out", "", "jsonl result file (append)")
+	fReplay   = flag.String("sim.replay", "", "replay file: JSON {seed,tape}")
+	fTrace    = flag.Bool("sim.trace", false, "include the schedule trace in every result")
+	fSamples  = flag.Int("sim.samples", 3, "number of results that keep their sample")
+	fFinding  = flag.String("sim.finding", "", "known-finding configuration to build")
+	fFeat     = flag.String("sim.features", "", "feature overrides")
+	fBudget   = flag.Duration("sim.budget", 0, "stop starting new runs after this much wall time")
+	fWatchdog = flag.Duration("sim.watchdog", 120*time.Second, "wall-clock limit for a single run")
 )
 
 type replayFile struct {
@@ -146,7 +147,14 @@ func TestSim(t *testing.T) {
 		}
 		seed := *fFrom + uint64(i)
 		emit(map[string]any{"begin": seed})
+		// wall-clock watchdog per run: a run that does not end is infrastructure trouble (exit 3 ->
+		// the parent reports exit 2), never a violation by itself
+		wd := time.AfterFunc(*fWatchdog, func() {
+			fmt.Fprintf(os.Stderr, "WATCHDOG: run of seed %d exceeded %s of wall time\n", seed, *fWatchdog)
+			os.Exit(3)
+		})
 		res := runOne(t, cfg, tape.New(seed), seed)
+		wd.Stop()
 		if res.Verdict == "ok" {
 			if !res.Nontrivial || kept >= *fSamples {
 				res.Sample = nil
